@@ -57,26 +57,35 @@ class Lock:
         self.f.close()
 
 
-def regen_facts(log):
-    """T1: rebuild the translator and regenerate coq/Gen/Facts.v from /repo. Returns (ok, message)."""
-    tdir = os.path.join(VERIF, "translator")
-    if not os.path.exists(os.path.join(tdir, "go.mod")):
-        return True, "no translator"
-    subprocess.run(["cp", os.path.join(REPO, "go.sum"), os.path.join(tdir, "go.sum")])
-    rc, out, _ = sh(["go", "build", "-o", os.path.join(BUILD, "srcfacts"), "."], cwd=tdir, timeout=600, env=GOENV)
+def prepare_go_dir(name):
+    """Returns the directory to build <name> (harness/translator) from; when VERIF_REPO points elsewhere a copy with a
+    rewritten replace directive is used."""
+    src = os.path.join(VERIF, name)
+    if REPO == "/repo":
+        subprocess.run(["cp", os.path.join(REPO, "go.sum"), os.path.join(src, "go.sum")])
+        return src
+    dst = os.path.join(BUILD, "alt-" + name)
+    subprocess.run(["rsync", "-a", "--delete", src + "/", dst + "/"])
+    gm = open(os.path.join(dst, "go.mod")).read().replace("=> /repo", "=> " + REPO)
+    open(os.path.join(dst, "go.mod"), "w").write(gm)
+    subprocess.run(["cp", os.path.join(REPO, "go.sum"), os.path.join(dst, "go.sum")])
+    return dst
+
+
+def regen_facts(log, repo=None):
+    """T1: rebuild the translator and regenerate coq/Gen/Facts*.v from the repository. Returns (ok, message)."""
+    repo = repo or REPO
+    tdir = prepare_go_dir("translator")
+    binp = os.path.join(BUILD, "srcfacts" if REPO == "/repo" else "srcfacts-alt")
+    rc, out, _ = sh(["go", "build", "-o", binp, "."], cwd=tdir, timeout=600, env=GOENV)
     if rc != 0:
         log.append("translator build failed:\n" + out)
         return False, "translator build failed: " + out[-2000:]
-    rc, out, _ = sh([os.path.join(BUILD, "srcfacts"), REPO], cwd=tdir, timeout=300, env=GOENV)
+    rc, out, _ = sh([binp, repo, os.path.join(COQ, "Gen")], cwd=tdir, timeout=300, env=GOENV)
+    log.append("srcfacts: " + out.strip()[-300:])
     if rc != 0:
-        log.append("translator failed:\n" + out)
         return False, "translator failed: " + out[-2000:]
-    target = os.path.join(COQ, "Gen", "Facts.v")
-    old = open(target).read() if os.path.exists(target) else None
-    if old != out:
-        with open(target, "w") as f:
-            f.write(out)
-    return True, "ok"
+    return True, out.strip()
 
 
 def coq_project():
@@ -157,10 +166,10 @@ def props_report(pid, log):
     return rc == 0, theorems, closed, sorted(set(axioms)), out
 
 
-def build_harness(log):
-    hdir = os.path.join(VERIF, "harness")
-    subprocess.run(["cp", os.path.join(REPO, "go.sum"), os.path.join(hdir, "go.sum")])
-    rc, out, dt = sh(["go", "build", "-tags", "verif", "-o", os.path.join(BUILD, "harness"), "./cmd/harness"],
+def build_harness(pid, log):
+    hdir = prepare_go_dir("harness")
+    binp = os.path.join(BUILD, "harness-" + pid + ("" if REPO == "/repo" else "-alt"))
+    rc, out, dt = sh(["go", "build", "-tags", "verif", "-o", binp, "./cmd/" + pid.lower()],
                      cwd=hdir, timeout=1200, env=GOENV)
     log.append("go build harness rc=%d %.1fs" % (rc, dt))
     return rc == 0, out
@@ -172,7 +181,8 @@ def run_harness(pid, tier, seed, outdir, log, timeout, extra=None):
         p = os.path.join(outdir, fn)
         if os.path.exists(p):
             os.remove(p)
-    cmd = [os.path.join(BUILD, "harness"), pid, "-out", outdir, "-seed", str(seed), "-tier", tier] + (extra or [])
+    binp = os.path.join(BUILD, "harness-" + pid + ("" if REPO == "/repo" else "-alt"))
+    cmd = [binp, "-out", outdir, "-seed", str(seed), "-tier", tier] + (extra or [])
     rc, out, dt = sh(cmd, cwd=VERIF, timeout=timeout, env=GOENV)
     log.append("harness %s rc=%d %.1fs" % (pid, rc, dt))
     res = None
@@ -268,32 +278,43 @@ def check(pid, tier, cfg, replay=None):
     harness_ok = True
     infra = []
 
-    with Lock():
-        # 1. T1 + proofs
-        ok, msg = regen_facts(log)
-        if not ok:
-            proof_ok, proof_msg = False, msg
-        coq_project()
-        targets = ["Props/%s.vo" % pid] + ["Run/%s.vo" % r for r in cfg.get("run_modules", ["Run" + pid])]
-        if proof_ok:
-            ok, out = coq_build(targets, log)
+    alt = REPO != "/repo"
+    biglock = Lock() if alt else None
+    if biglock:
+        biglock.__enter__()
+    try:
+        # 1. T1 + proofs (shared Coq build directory: under the lock)
+        lk = None if alt else Lock()
+        if lk:
+            lk.__enter__()
+        try:
+            ok, msg = regen_facts(log)
             if not ok:
+                proof_ok, proof_msg = False, msg
+            coq_project()
+            targets = ["Props/%s.vo" % pid] + ["Run/%s.vo" % r for r in cfg.get("run_modules", ["Run" + pid])]
+            if proof_ok:
+                ok, out = coq_build(targets, log)
+                if not ok:
+                    proof_ok = False
+                    proof_msg = out[-3000:]
+            gate = axiom_gate()
+            if gate:
                 proof_ok = False
-                proof_msg = out[-3000:]
-        gate = axiom_gate()
-        if gate:
-            proof_ok = False
-            proof_msg += "\nforbidden declarations: " + "; ".join(gate[:20])
-        if proof_ok:
-            ok, theorems, closed, axioms, passum = props_report(pid, log)
-            allowed = set(cfg.get("allowed_axioms", []))
-            if not ok:
-                proof_ok, proof_msg = False, passum[-3000:]
-            elif set(axioms) - allowed:
-                proof_ok = False
-                proof_msg = "unexpected axioms: %s" % sorted(set(axioms) - allowed)
+                proof_msg += "\nforbidden declarations: " + "; ".join(gate[:20])
+            if proof_ok:
+                ok, theorems, closed, axioms, passum = props_report(pid, log)
+                allowed = set(cfg.get("allowed_axioms", []))
+                if not ok:
+                    proof_ok, proof_msg = False, passum[-3000:]
+                elif set(axioms) - allowed:
+                    proof_ok = False
+                    proof_msg = "unexpected axioms: %s" % sorted(set(axioms) - allowed)
+        finally:
+            if lk:
+                lk.__exit__()
         # 2. harness
-        ok, out = build_harness(log)
+        ok, out = build_harness(pid, log)
         if not ok:
             harness_ok = False
             infra.append("harness build failed: " + out[-3000:])
@@ -310,14 +331,24 @@ def check(pid, tier, cfg, replay=None):
             if res is None or rc != 0 or res.get("infra_errors"):
                 harness_ok = False
                 infra.append("harness did not complete: rc=%s %s %s" % (rc, (res or {}).get("infra_errors"), out[-2000:]))
-        # 3. model evaluation
+        # 3. model evaluation (reads the compiled .vo files; retried once in case another check was rebuilding them)
         if res is not None and proof_ok:
-            ok, ids, mout = run_model(outdir, log)
+            for attempt in range(2):
+                ok, ids, mout = run_model(outdir, log)
+                if ok:
+                    break
+                time.sleep(5)
             if not ok:
                 model_ok = False
                 notes.append("model evaluation failed: " + mout[-2000:])
             else:
                 mismatches = ids
+    finally:
+        if biglock:
+            # restore the generated facts of /repo before releasing the lock
+            if os.path.exists(os.path.join(BUILD, "srcfacts")):
+                sh([os.path.join(BUILD, "srcfacts"), "/repo", os.path.join(COQ, "Gen")], timeout=300, env=GOENV)
+            biglock.__exit__()
 
     # 4. decide
     failures = (res or {}).get("failures", [])
@@ -357,9 +388,8 @@ def check(pid, tier, cfg, replay=None):
             found = None
             if harness_ok or res is not None:
                 for s2 in (seed + 1000, seed + 2000, seed + 3000):
-                    with Lock():
-                        rc, out, r2 = run_harness(pid, "thorough", s2, outdir + "-search", log,
-                                                  cfg.get("harness_timeout", {}).get("search", 1200))
+                    rc, out, r2 = run_harness(pid, "thorough", s2, outdir + "-search", log,
+                                              cfg.get("harness_timeout", {}).get("search", 1200))
                     if r2 is not None:
                         for f in r2.get("failures", []):
                             if match_known(pid, f.get("canonical", ""), known) is None:
@@ -427,8 +457,8 @@ def main():
     if "--replay" in sys.argv:
         replay = sys.argv[sys.argv.index("--replay") + 1]
     sys.path.insert(0, os.path.join(VERIF, "lib"))
-    import propcfg
-    cfg = propcfg.CFG.get(pid, {})
+    cp = os.path.join(VERIF, "lib", "cfg", pid + ".json")
+    cfg = json.load(open(cp)) if os.path.exists(cp) else {}
     sys.exit(check(pid, tier, cfg, replay))
 
 
